@@ -20,7 +20,9 @@ KeyVec == { [kind |-> "key", mode |-> "expect", text |-> ModText(S, 1) \o n[1], 
 \* hostile token grammar: every concatenation of up to three tokens; only totality and the print/parse round trip are judged
 Tokens == { "", "f", "f1", "f99999999999999999999", "f-1", "+", "ctrl", "CTRL", "ctrl+", "a", "b", " ", "  ", "shift+a", "a+b", "escape", "F12", "\"a\"", "None", "space", "tab", "enter", "x y", "+a",
             \* quoted characters whose printed form is the name of another key
-            "\"\t\"", "\"\n\"", "\" \"", "\t", "\"" }
+            "\"\t\"", "\"\n\"", "\" \"", "\t", "\"",
+            \* modifier words of the key model that the documented syntax does not have
+            "numlock+", "numlock", "release+", "repeat+" }
 Hostile == { [kind |-> "chord", mode |-> "free", text |-> a \o b \o c, exptext |-> "", expname |-> "", expbits |-> 0] : a \in Tokens, b \in Tokens, c \in Tokens }
 ASSUME ndJsonSerialize(IOEnv.OUT, SetToSeq(KeyVec) \o SetToSeq(Hostile))
 ASSUME PrintT(<<"GENERATED", Cardinality(KeyVec), Cardinality(Hostile)>>)
